@@ -190,7 +190,7 @@ class Reporter:
 
         os.makedirs(os.path.join(VERIF, 'evidence'), exist_ok=True)
 
-        if REPO == '/repo' or os.environ.get('VERIF_EVIDENCE_ANYWAY'):  # detection-campaign runs do not clobber evidence
+        if (REPO == '/repo' and not getattr(self, 'only', None)) or os.environ.get('VERIF_EVIDENCE_ANYWAY'):  # detection-campaign runs and partial (--only) debugging runs do not clobber evidence
             with open(os.path.join(VERIF, 'evidence', f'{self.pid}.json'), 'w') as f:
                 json.dump(ev, f, indent=1)
 
